@@ -70,6 +70,14 @@
 #include "threadpool/threadpool.h"
 #include "threadpool/threadpool_msg_sys.h"
 
+/* Verification hooks: compiled out unless LIBLCB_VERIF is defined. */
+#ifdef LIBLCB_VERIF
+void	lcb_verif_point(const char *tag);
+#	define LCB_VERIF_POINT(__tag)	lcb_verif_point(__tag)
+#else
+#	define LCB_VERIF_POINT(__tag)
+#endif
+
 #ifdef THREAD_POOL_SETTINGS_XML
 #	include "utils/buf_str.h"
 #	include "utils/xml.h"
@@ -1121,7 +1129,9 @@ tp_shutdown(tp_p tp) {
 		return;
 	if (0 != tp->shutdown)
 		return;
+	LCB_VERIF_POINT("tp_shutdown:after-test");
 	tp->shutdown ++;
+	LCB_VERIF_POINT("tp_shutdown:after-inc");
 	/* Private virtual thread. */
 	tp->pvt->state = TP_THREAD_STATE_STOP;
 	if (NULL != tp->s.tpt_on_stop) {
@@ -1153,6 +1163,7 @@ tp_shutdown_wait(tp_p tp) {
 	for (size_t i = 0; i < tp->s.threads_max; i ++) {
 		if (TP_THREAD_STATE_STOP == tp->threads[i].state)
 			continue;
+		LCB_VERIF_POINT("tp_shutdown_wait:before-join");
 		error = pthread_join(tp->threads[i].pt_id, NULL);
 		switch (error) {
 		case 0: /* No error. */
@@ -1286,6 +1297,7 @@ tp_thread_proc(void *data) {
 
 	tpt->tp->threads_cnt ++;
 	tpt->state = TP_THREAD_STATE_RUNNING;
+	LCB_VERIF_POINT("tp_thread_proc:running");
 
 	snprintf(thr_name, sizeof(thr_name), "%s: %zu",
 	    tpt->tp->s.name, tpt->thread_num);
@@ -1332,8 +1344,11 @@ tp_thread_proc(void *data) {
 	syslog(LOG_INFO, "%s thread exited...", thr_name);
 	pthread_setspecific(tp_tls_key_tpt, NULL);
 	pthread_self_name_set(NULL);
+	LCB_VERIF_POINT("tp_thread_proc:before-clear-ptid");
 	memset(&tpt->pt_id, 0x00, sizeof(pthread_t));
+	LCB_VERIF_POINT("tp_thread_proc:before-stop");
 	tpt->state = TP_THREAD_STATE_STOP; /* Reset state on exit. */
+	LCB_VERIF_POINT("tp_thread_proc:after-stop");
 	tpt->tp->threads_cnt --;
 
 	return (NULL);
